@@ -12,6 +12,7 @@ var kinds = []string{"counter", "map", "list", "doc"}
 var keyPool = []string{"k1", "k2", "k3"}
 
 type genCtx struct {
+	nRace  int
 	g      *kernel.Rng
 	prop   string
 	nAct   int
@@ -39,6 +40,18 @@ func (c *genCtx) localEv(a int) Ev {
 			e.V = append(e.V, enga.GenValue(g, 0, 2))
 		} else {
 			e.V = append(e.V, enga.GenPrim(g))
+		}
+	}
+	if c.prop == "C14" && g.Chance(1, 6) {
+		// shapes that have a Go struct / typed-slice form (see dress.go)
+		ints := []interface{}{}
+		for i := g.Intn(4); i >= 0; i-- {
+			ints = append(ints, float64(g.Intn(70000)%65536))
+		}
+		if g.Chance(1, 2) {
+			e.V[0] = map[string]interface{}{"a": float64(g.Range(-1000, 1000)), "b": fmt.Sprintf("s%d", g.Intn(100)), "c": ints}
+		} else {
+			e.V[0] = ints
 		}
 	}
 	e.Op = []string{"put", "put", "rm", "ins", "ins", "del", "upd", "dput", "dput", "drm", "dins", "ddel", "dupd"}[g.Intn(13)]
@@ -113,10 +126,10 @@ func Gen(prop, tier string, seed uint64) *kernel.Plan {
 			first.MF = append(first.MF, MongoFault{At: g.Range(8, 12), Kind: []string{"errBefore", "errAfter"}[g.Intn(2)]})
 		}
 		switch {
-		case prop == "C07" && g.Chance(1, 5):
+		case (prop == "C07" || prop == "C13") && g.Chance(1, 5):
 			// the creating push is stored but its answer never arrives
 			first.Resp = "drop"
-		case prop == "C08" && g.Chance(1, 5):
+		case (prop == "C08" || prop == "C16") && g.Chance(1, 5):
 			first.MF = append(first.MF, MongoFault{At: g.Range(5, 12), Kind: []string{"errBefore", "errAfter"}[g.Intn(2)]})
 		}
 		evs = append(evs, first)
@@ -235,6 +248,35 @@ func Gen(prop, tier string, seed uint64) *kernel.Plan {
 				evs = append(evs, Ev{T: "sync", A: a})
 			}
 		}
+		if prop == "C18" && g.Chance(1, 3) {
+			grp := Ev{T: "group", S: g.U64() % 100000}
+			for k := g.Range(2, 4); k > 0; k-- {
+				grp.Body = append(grp.Body, c.localEv(g.Intn(nAct)))
+			}
+			evs = append(evs, grp)
+		}
+		if prop == "C13" && g.Chance(1, 8) {
+			// racing entry: several clients open the same unused key and sync at the same time
+			c.nRace++
+			k := fmt.Sprintf("kr%d", c.nRace)
+			kind := kinds[g.Intn(4)]
+			e := Ev{T: "par", S: g.U64() % 100000}
+			for x := 0; x < nAct; x++ {
+				if x > 1 && g.Chance(1, 3) {
+					continue
+				}
+				kd := kind
+				if g.Chance(1, 6) {
+					kd = kinds[g.Intn(4)]
+				}
+				evs = append(evs, Ev{T: "open", A: x, K: k, Kind: kd, Mode: []string{"create", "soc", "soc", "subscribe"}[g.Intn(4)]})
+				if g.Chance(1, 2) {
+					evs = append(evs, c.localEv(x))
+				}
+				e.Par = append(e.Par, x)
+			}
+			evs = append(evs, e)
+		}
 		if (prop == "C05" || prop == "C06" || prop == "C08" || prop == "C07") && g.Chance(1, 40) {
 			evs = append(evs, Ev{T: "burst", A: a, D: g.Intn(3), N: g.Intn(150)})
 		}
@@ -271,6 +313,11 @@ func (c *genCtx) decorate(e *Ev) {
 		if g.Chance(1, 3) {
 			e.MF = append(e.MF, MongoFault{At: g.Range(1, 14), Kind: []string{"errBefore", "errAfter", "partial", "crashBefore", "crashAfter"}[g.Intn(5)]})
 		}
+	case "C16":
+		// a request that fails inside the server (after it was accepted) is answered with an error, too
+		if g.Chance(1, 5) {
+			e.MF = append(e.MF, MongoFault{At: g.Range(3, 12), Kind: []string{"errBefore", "errAfter"}[g.Intn(2)]})
+		}
 	case "C19":
 		// a commit that fails half way right before a REST patch
 		if g.Chance(1, 6) {
@@ -279,6 +326,7 @@ func (c *genCtx) decorate(e *Ev) {
 	case "C11":
 		if g.Chance(1, 2) {
 			e.Post = "lag"
+			e.N = g.Intn(5)
 		}
 		if g.Chance(1, 10) {
 			e.MF = append(e.MF, MongoFault{At: g.Range(5, 9), Kind: []string{"errAfter", "partial", "errBefore"}[g.Intn(3)]})
